@@ -12,7 +12,7 @@ open Cal
 /-- WEEKLY argument sets covered by the proved portion of `iter_eq_spec` -/
 structure WeeklyArgs (a : Args) : Prop extends DWArgs a where
   freq : a.freq = 2
-  bysetpos : a.bysetpos = none
+  setpos : a.bysetpos = none ∨ weekdayOfOrd (Spec.RRule.startOrd a) = a.wkst.getD 0
   wkst : 0 ≤ a.wkst.getD 0 ∧ a.wkst.getD 0 ≤ 6
   until_ge : ∀ u, a.untilDT = some u → Spec.RRule.startMicros a ≤ u.toMicros
 
@@ -91,17 +91,17 @@ theorem weekly_span (wa : WeeklyArgs a) (k : Nat) :
   unfold Spec.RRule.periodSpan W0 Spec.RRule.wkst
   simp [wa.freq]
 
-/-- the model's results of period `k` against the specification's candidates -/
-theorem weekly_results (wa : WeeklyArgs a) (h : construct a = .ok r) (k : Nat) (st : State)
-    (hg : WeeklyGood a r k st) (hle : W0 a + 7 * (k * a.interval) + 7 ≤ maxOrdinal + 1) :
-    ∃ fl pre cands, periodResults r st = .ok (cands, none, fl) ∧ Spec.RRule.sel a (k : Int) = pre ++ cands ∧
-      (∀ x ∈ pre, x.micros < Spec.RRule.startMicros a ∧ Spec.RRule.afterUntil a x = false) ∧
-      (∀ x ∈ cands, 0 ≤ x.ord ∧ x.ord ≤ maxOrdinal) := by
+/-- the WEEKLY day set of period `k`: from the cursor to the day before the next week start -/
+theorem weekly_dayset_end (wa : WeeklyArgs a) (h : construct a = .ok r) (k : Nat) (st : State)
+    (hg : WeeklyGood a r k st) :
+    ∃ e, dayset r st.info st.cur = .ok (intRange (curOrd st.cur - st.info.yearordinal) e) ∧
+      st.info.yearordinal + e = W0 a + 7 * (k * a.interval) + 7 ∧
+      W0 a + 7 * (k * a.interval) ≤ curOrd st.cur ∧ curOrd st.cur < W0 a + 7 * (k * a.interval) + 7 ∧
+      1 ≤ curOrd st.cur ∧ 0 ≤ curOrd st.cur - st.info.yearordinal ∧
+      curOrd st.cur - st.info.yearordinal < st.info.yearlen := by
   have dw := wa.toDWArgs
-  have hs := daily_simple dw h
   obtain ⟨bh, bm, bs, hr⟩ := daily_rule dw h
   have hfreq : r.freq = 2 := by rw [hr]; exact wa.freq
-  have hsp : r.bysetpos = none := by rw [hr]; exact wa.bysetpos
   have hwk : r.wkst = a.wkst.getD 0 := by rw [hr]
   have hf := W0_facts wa
   have hw := wa.wkst
@@ -116,7 +116,6 @@ theorem weekly_results (wa : WeeklyArgs a) (h : construct a = .ok r) (k : Nat) (
   have hrange := weekdayOfOrd_range (curOrd st.cur)
   obtain ⟨e, hd, h1, h2, h3, h4⟩ := dayset_weekly hfreq hg.facts hg.valid
   rw [hwk] at h3 h4
-  -- the day set ends at the next week start
   have he : st.info.yearordinal + e = W0 a + 7 * (k * a.interval) + 7 := by
     have hδ : 0 ≤ (weekdayOfOrd (curOrd st.cur) - a.wkst.getD 0) % 7 ∧
         (weekdayOfOrd (curOrd st.cur) - a.wkst.getD 0) % 7 < 7 := by omega
@@ -138,7 +137,6 @@ theorem weekly_results (wa : WeeklyArgs a) (h : construct a = .ok r) (k : Nat) (
           curOrd st.cur + (7 - (weekdayOfOrd (curOrd st.cur) - a.wkst.getD 0) % 7) := by omega
       rw [e4, weekdayOfOrd_add]
       omega
-  have hcur_ge : W0 a + 7 * (k * a.interval) ≤ curOrd st.cur := by omega
   have hk0 : (0 : Int) ≤ k * a.interval := Int.mul_nonneg (by omega) (by have := wa.interval; omega)
   have hcur1 : 1 ≤ curOrd st.cur := by
     rw [hg.ord]; split
@@ -148,11 +146,23 @@ theorem weekly_results (wa : WeeklyArgs a) (h : construct a = .ok r) (k : Nat) (
         have h1 : (1 : Int) ≤ k := by omega
         have := Int.mul_le_mul h1 wa.interval (by omega) (by omega); omega
       omega
-  have hi_lt : curOrd st.cur - st.info.yearordinal < st.info.yearlen := by
-    unfold curOrd; rw [hyo, hyl]; exact hidx.2
-  obtain ⟨fl, hres⟩ := periodResults_range hs st hg.facts hg.nwd hsp _ e hd
-    (by unfold curOrd; rw [hyo]; exact hidx.1) (by omega)
-    (by omega) (by omega)
+  refine ⟨e, hd, he, by omega, by omega, hcur1, ?_, ?_⟩
+  · unfold curOrd; rw [hyo]; exact hidx.1
+  · unfold curOrd; rw [hyo, hyl]; exact hidx.2
+
+/-- the model's results of period `k` against the specification's candidates -/
+theorem weekly_results (wa : WeeklyArgs a) (hnone : a.bysetpos = none) (h : construct a = .ok r) (k : Nat) (st : State)
+    (hg : WeeklyGood a r k st) (hle : W0 a + 7 * (k * a.interval) + 7 ≤ maxOrdinal + 1) :
+    ∃ fl pre cands, periodResults r st = .ok (cands, none, fl) ∧ Spec.RRule.sel a (k : Int) = pre ++ cands ∧
+      (∀ x ∈ pre, x.micros < Spec.RRule.startMicros a ∧ Spec.RRule.afterUntil a x = false) ∧
+      (∀ x ∈ cands, 0 ≤ x.ord ∧ x.ord ≤ maxOrdinal) := by
+  have dw := wa.toDWArgs
+  have hs := daily_simple dw h
+  obtain ⟨bh, bm, bs, hr⟩ := daily_rule dw h
+  have hsp : r.bysetpos = none := by rw [hr]; exact hnone
+  have hyl := hg.facts.yearlen
+  obtain ⟨e, hd, he, hcur_ge, hcur_lt, hcur1, hi0, hi_lt⟩ := weekly_dayset_end wa h k st hg
+  obtain ⟨fl, hres⟩ := periodResults_range hs st hg.facts hg.nwd hsp _ e hd hi0 (by omega) (by omega) (by omega)
   have e1 : st.info.yearordinal + (curOrd st.cur - st.info.yearordinal) = curOrd st.cur := by omega
   rw [e1, he] at hres
   have hbridge : ∀ (lo hi : Int), 1 ≤ lo →
@@ -161,7 +171,7 @@ theorem weekly_results (wa : WeeklyArgs a) (h : construct a = .ok r) (k : Nat) (
     apply List.filter_congr
     intro o ho
     exact simpleOk_eq_dateOk dw h o (by have := (mem_intRange _ _ _).mp ho; omega)
-  have hsel := sel_span a wa.bysetpos k _ _ (weekly_span wa k)
+  have hsel := sel_span a hnone k _ _ (weekly_span wa k)
   rw [intRange_append _ (curOrd st.cur) _ hcur_ge (by omega), List.filter_append, List.flatMap_append] at hsel
   refine ⟨fl, _, _, ?_, hsel, ?_, ?_⟩
   · rw [hres, hg.timeset, hbridge _ _ hcur1]
@@ -191,6 +201,48 @@ theorem weekly_results (wa : WeeklyArgs a) (h : construct a = .ok r) (k : Nat) (
     | some u => have := wa.until_ge u hu; simp; omega
   · intro x hx
     have := sel_bounds _ _ _ _ x hx
+    omega
+
+/-- a start on the week start: the model's period is the whole week, also under BYSETPOS -/
+theorem weekly_results_aligned (wa : WeeklyArgs a) (hal : weekdayOfOrd (Spec.RRule.startOrd a) = a.wkst.getD 0)
+    (h : construct a = .ok r) (k : Nat) (st : State)
+    (hg : WeeklyGood a r k st) (hle : W0 a + 7 * (k * a.interval) + 7 ≤ maxOrdinal + 1) :
+    ∃ fl pre cands, periodResults r st = .ok (cands, none, fl) ∧ Spec.RRule.sel a (k : Int) = pre ++ cands ∧
+      (∀ x ∈ pre, x.micros < Spec.RRule.startMicros a ∧ Spec.RRule.afterUntil a x = false) ∧
+      (∀ x ∈ cands, 0 ≤ x.ord ∧ x.ord ≤ maxOrdinal) := by
+  have dw := wa.toDWArgs
+  have hs := daily_simple dw h
+  obtain ⟨bh, bm, bs, hr⟩ := daily_rule dw h
+  have hsp := construct_bysetpos a r h
+  have htsok : TsOk st.timeset := by
+    have := construct_timeset_ok a r h (by rw [wa.freq]; omega)
+    rw [hr] at this; rw [hg.timeset]; exact this
+  have hf := W0_facts wa
+  have hw := wa.wkst
+  obtain ⟨e, hd, he, hcur_ge, hcur_lt, hcur1, hi0, hi_lt⟩ := weekly_dayset_end wa h k st hg
+  -- the cursor stands on the week start
+  have hcw : weekdayOfOrd (curOrd st.cur) = a.wkst.getD 0 := by
+    rw [hg.ord]; split
+    · exact hal
+    · exact hf.2.2 _
+  have hcur : curOrd st.cur = W0 a + 7 * (k * a.interval) := by
+    have := weekly_wk wa k st hg
+    rw [hcw] at this; omega
+  obtain ⟨fl, hres⟩ := periodResults_range_sp hs st hg.facts hg.nwd (by rw [hsp.1]; exact hsp.2) htsok _ e hd hi0
+    (by omega) (by omega) (by omega)
+  have e1 : st.info.yearordinal + (curOrd st.cur - st.info.yearordinal) = W0 a + 7 * (k * a.interval) := by omega
+  rw [e1, he] at hres
+  have hbridge : (intRange (W0 a + 7 * (k * a.interval)) (W0 a + 7 * (k * a.interval) + 7)).filter (simpleOk r) =
+      (intRange (W0 a + 7 * (k * a.interval)) (W0 a + 7 * (k * a.interval) + 7)).filter (Spec.RRule.dateOk a) := by
+    apply List.filter_congr
+    intro o ho
+    exact simpleOk_eq_dateOk dw h o (by have := (mem_intRange _ _ _).mp ho; omega)
+  have hsel := sel_span_sp a k _ _ (weekly_span wa k)
+  refine ⟨fl, [], Spec.RRule.sel a (k : Int), ?_, rfl, by simp, ?_⟩
+  · rw [hres, hsel, hg.timeset, hbridge, hsp.1]
+  · intro x hx
+    rw [hsel] at hx
+    have := sel_bounds _ _ _ _ x (applySetpos_subset _ _ x hx)
     omega
 
 /-- `advance` reaches period `k+1` -/
@@ -273,7 +325,8 @@ theorem weekly_init (wa : WeeklyArgs a) (h : construct a = .ok r) :
 /-- **`iter_eq_spec`, WEEKLY portion.**  For every argument set with FREQ=WEEKLY, INTERVAL ≥ 1, a week
     start 0..6, a valid start, UNTIL (if any) not before the start, any BYMONTH / BYMONTHDAY (non-zero
     members) / BYYEARDAY / BYDAY — or none, in which case the weekday is the start's — / BYHOUR /
-    BYMINUTE / BYSECOND, any COUNT, and no BYWEEKNO / BYEASTER / BYSETPOS: the values yielded during
+    BYMINUTE / BYSECOND, any COUNT, no BYWEEKNO / BYEASTER, and BYSETPOS only when the start falls on the
+    week start (the complement of the defect class D-C01e): the values yielded during
     the first `n` periods are exactly the specification's recurrence set of those periods (whole
     weeks from the week start), for every `n` whose weeks lie inside datetime's range. -/
 theorem iter_eq_spec_weekly (wa : WeeklyArgs a) (h : construct a = .ok r) (n : Nat)
@@ -287,7 +340,10 @@ theorem iter_eq_spec_weekly (wa : WeeklyArgs a) (h : construct a = .ok r) (n : N
     omega
   have sim : Simulation a r n (WeeklyGood a r) := {
     agree := daily_cuts wa.toDWArgs h
-    results := fun k st hk hg => weekly_results wa h k st hg (hmono k (by omega))
+    results := fun k st hk hg => by
+      rcases wa.setpos with hnone | hal
+      · exact weekly_results wa hnone h k st hg (hmono k (by omega))
+      · exact weekly_results_aligned wa hal h k st hg (hmono k (by omega))
     next := fun k st fl c hk hg => weekly_next wa h k st fl c hg (by have := hmono (k + 1) (by omega); omega) }
   obtain ⟨st0, hinit, hg0, hc0⟩ := weekly_init wa h
   exact iter_refines sim st0 hinit hg0 hc0 n (by omega)
